@@ -72,7 +72,7 @@ func (n *nativeResult) labels() []string {
 // labelOf returns the first failed oracle of a path that belongs to prop ("" if none).
 func labelOf(h *HarnessDef, labels []string, prop string) string {
 	for _, l := range labels {
-		if h.labelProp(l) == prop {
+		if h.labelIs(l, prop) {
 			return l
 		}
 	}
